@@ -116,6 +116,15 @@ def cmd_check(args) -> int:
         xobls = [o for o in xobls if re.search(args.only, o.name)]
         zobls = [z for z in zobls if re.search(args.only, z["name"])]
     jobs = args.jobs or min(16, os.cpu_count() or 4)
+    if tier == "thorough" and xobls:
+        # size the thorough tier by total wall time: if every obligation ran into its timeout the run would take
+        # sum(timeouts)/jobs; scale the per-obligation budgets down (never below the quick budget) to fit VF_THOROUGH_BUDGET
+        budget = int(os.environ.get("VF_THOROUGH_BUDGET", "2400"))
+        total = sum(o.timeout for o in xobls)
+        if total / jobs > budget:
+            scale = budget * jobs / total
+            for o in xobls:
+                o.timeout = max(170, int(o.timeout * scale))
 
     def progress(r: Result):
         if args.verbose:
